@@ -93,15 +93,23 @@ def native_roundtrip(run, count):
             path = pathlib.Path(d) / "data.json"
             expect = {}
             for step in range(rng.randint(1, 8)):
-                name = rng.choice(["a", "b", "c", "run-1", "x y", "ä", "a"])
+                name = rng.choice(["a", "b", "c", "run-1", "x y", "ä", "a", "run.1", "run.2", "x/run", "y/run", "a.b", "a.c",
+                                   "2024-03-07T10:15:42.104233", "2024-03-07T10:15:42.873310", "A", "a "])
                 r, c = rng.randint(1, 6), rng.randint(1, 6)
                 data = np.array([[rng.choice([rng.uniform(-1e3, 1e3), 1e300, -0.0, 5e-324, float(rng.randint(-5, 5))]) for _ in range(c)]
                                  for _ in range(r + 1)], dtype=float)
-                acts = np.full((r, c), np.nan)
-                for i in range(r):
-                    for j in range(c):
-                        if rng.random() < 0.7:
-                            acts[i, j] = float(rng.randint(0, 31))
+                if step % 3 == 2:
+                    acts = np.full((r + 1, c, r), np.nan)          # best_states: 3-D, NaN padded
+                    for i in range(r + 1):
+                        for q in range(c):
+                            for j in range(min(i, r)):
+                                acts[i, q, j] = float(rng.randint(0, 31))
+                else:
+                    acts = np.full((r, c), np.nan)
+                    for i in range(r):
+                        for j in range(c):
+                            if rng.random() < 0.7:
+                                acts[i, j] = float(rng.randint(0, 31))
                 args = Namespace(func=len, model_dir=pathlib.Path("/tmp/x"), when=datetime(2020, 1, 2), seed=step, f=print, none=None)
                 out = save.Output(data, acts, args)
                 before = path.read_bytes() if path.exists() else None
@@ -121,9 +129,12 @@ def native_roundtrip(run, count):
                     o = got.get(k)
                     ok = ok and o is not None and o.data.dtype == np.float64 and o.data.shape == dd.shape and np.array_equal(o.data, dd) \
                         and o.actions.shape == aa.shape and np.array_equal(o.actions, aa, equal_nan=True)
-                    o2 = save.Output.from_file(path, k)
-                    ok = ok and np.array_equal(o2.data, dd)
-                md = json.loads(path.read_text())[name]["metadata"] if name in expect else {}
+                    try:
+                        o2 = save.Output.from_file(path, k)
+                        ok = ok and np.array_equal(o2.data, dd)
+                    except KeyError:
+                        ok = False           # a saved run cannot be read back
+                md = json.loads(path.read_text()).get(name, {}).get("metadata", {}) if name in expect else {}
                 ok = ok and (name not in expect or md.get("run_type") in ("eval", "learn"))
                 if not ok:
                     fails += 1
@@ -154,6 +165,8 @@ def main(run):
     for rows, cols in shapes:
         for nan in (True, False):
             run.prove(f"roundtrip[shape={rows}x{cols},nan={nan}]", SS.sc_output_roundtrip, {"rows": rows, "cols": cols, "nan": nan}, pkg=pkg)
+    for rows in (1, 2, 3):
+        run.prove(f"roundtrip.3d[steps={rows}]", SS.sc_output_roundtrip, {"rows": rows, "cols": 2, "three_d": True}, pkg=pkg)
     run.discharge()
     dataflow_check(run, pkg)
     e, f = native_roundtrip(run, 15 if run.tier == "quick" else 150)
